@@ -1,5 +1,6 @@
 SPECIFICATION Spec
 INVARIANT Transparent
+INVARIANT CatalogTransparent
 INVARIANT NoMacroNodes
 INVARIANT EmitInv
 CHECK_DEADLOCK FALSE
